@@ -12,7 +12,9 @@ HASHES = ['SHA256', 'SHA512', 'SHA1', 'MD5']
 
 
 # operations on ONE live key object: verdicts interleaved with changes of the key's standing
-LIVE_MENU = ['verify-good', 'verify-wrong', 'verify-key', 'expire', 'expire-lapsed-cert', 'unexpire', 'revoke', 'derive-pub-verify']
+LIVE_MENU = ['verify-good', 'verify-wrong', 'verify-key', 'expire', 'expire-lapsed-cert', 'unexpire', 'revoke', 'derive-pub-verify',
+             # a self-certification made in the very second of the most recent one: the one made last is the one in force
+             'expire-same-second', 'unexpire-same-second']
 
 
 class Prop(object):
@@ -243,25 +245,42 @@ class Prop(object):
             sig = key.sign(doc, hash=HashAlgorithm.SHA256, created=K.dt(K.T0 + 100))
             expired = revoked = False
             t = K.T0 + 200
+            tc = None        # creation time of the most recent self-certification made in this history
             for step, op in enumerate(seq):
                 r.transitions += 1
                 t += 100
                 want = None
                 try:
-                    if op == 'expire':
+                    if op in ('expire-same-second', 'unexpire-same-second'):
+                        if tc is None:
+                            tc = t
+                            u = key.userids[0]
+                            u |= key.certify(u, created=K.dt(tc), hash=HashAlgorithm.SHA256)
+                            expired = False
+                        u = key.userids[0]
+                        if op == 'expire-same-second':
+                            u |= key.certify(u, created=K.dt(tc), key_expiration=timedelta(days=1), hash=HashAlgorithm.SHA512)
+                            expired = True
+                        else:
+                            u |= key.certify(u, created=K.dt(tc), hash=HashAlgorithm.SHA384)
+                            expired = False
+                    elif op == 'expire':
                         u = key.userids[0]
                         u |= key.certify(u, created=K.dt(t), key_expiration=timedelta(days=1), hash=HashAlgorithm.SHA256)
                         expired = True
+                        tc = t
                     elif op == 'expire-lapsed-cert':
                         # the newest self-certification carries a key expiry in the past AND has itself expired: the key is expired (or at best without
                         # a self-signature in force) - never in good standing
                         u = key.userids[0]
                         u |= key.certify(u, created=K.dt(t), key_expiration=timedelta(days=1), expires=timedelta(days=2), hash=HashAlgorithm.SHA256)
                         expired = True
+                        tc = t
                     elif op == 'unexpire':
                         u = key.userids[0]
                         u |= key.certify(u, created=K.dt(t), hash=HashAlgorithm.SHA256)
                         expired = False
+                        tc = t
                     elif op == 'revoke':
                         if not revoked:
                             key |= key.revoke(key, created=K.dt(t), hash=HashAlgorithm.SHA256)
